@@ -375,3 +375,51 @@ def containerish_types():
         MODULE_CLASSES.update(originals)
         _CONTAINERISH.update(Rack=Rack, Kit=Kit, Muted=Muted)
     return [_CONTAINERISH["Rack"], _CONTAINERISH["Kit"], lambda **kw: _CONTAINERISH["Muted"](volume=0, **kw)]
+
+
+def saves_into_positioned_streams(res, prop, obj, desc, tdir=None):
+    """`write_to(f)` writes the container at the stream's CURRENT position, whatever kind of stream it is: behind a header in a
+    memory stream, appended to a file ("ab"), in the middle of a file opened "r+b".  What follows the header is exactly
+    `obj.read()`, and it loads from there."""
+    import os
+    import shutil
+    import tempfile
+    from io import BytesIO
+    import rv.api as api
+    want = obj.read()
+    head = b"BNDL\x01\x00\x00\x00hdr!"
+    own = tdir is None
+    tdir = tdir or tempfile.mkdtemp(prefix="rvmon-sinks-", dir=os.environ.get("TMPDIR", "/var/tmp"))
+    try:
+        for kind in ("memory-after-header", "append-mode", "read-write-positioned", "write-mode-after-header"):
+            res.count("saves_into_positioned_streams")
+            try:
+                if kind == "memory-after-header":
+                    f = BytesIO()
+                    f.write(head)
+                    obj.write_to(f)
+                    data = f.getvalue()
+                else:
+                    path = os.path.join(tdir, f"sink-{kind}.bin")
+                    with open(path, "wb") as f:
+                        f.write(head)
+                        if kind == "write-mode-after-header":
+                            obj.write_to(f)
+                    if kind == "append-mode":
+                        with open(path, "ab") as f:
+                            obj.write_to(f)
+                    elif kind == "read-write-positioned":
+                        with open(path, "r+b") as f:
+                            f.seek(len(head))
+                            obj.write_to(f)
+                    with open(path, "rb") as f:
+                        data = f.read()
+            except Exception as e:
+                res.violation(f"{prop}:save-sink:{kind}:{exc_key(e)}", f"write_to() into a stream ({kind}) raised {e!r}", dict(desc, sink=kind))
+                continue
+            if data[:len(head)] != head or data[len(head):] != want:
+                res.violation(f"{prop}:save-sink:{kind}", f"write_to() into a stream positioned behind a {len(head)}-byte header ({kind}): the stream holds {len(data)} bytes, "
+                                                          f"header intact: {data[:len(head)] == head}, container equals read(): {data[len(head):] == want}", dict(desc, sink=kind))
+    finally:
+        if own:
+            shutil.rmtree(tdir, ignore_errors=True)
